@@ -262,7 +262,7 @@ def main(tier):
     chk.assumptions = ASSUME
     js = jobs(common.level("C19", tier))
     if common.level("C19", tier) == "deep":
-        js = common.widen(js, by=(1,))
+        js = common.widen(js, by=(1, 2))
     for i, j in enumerate(js):
         j["want_sample"] = i % max(1, len(js) // 6) == 0
     js = common.rotate(js)
